@@ -18,6 +18,7 @@
 #include <fstream>
 #include <iostream>
 #include <map>
+#include <set>
 #include <sstream>
 #include <string>
 #include <vector>
@@ -74,6 +75,8 @@ std::vector<Guard> parseGuards(const std::string& g) {
   return out;
 }
 
+std::set<std::string> g_enums;    // MATLAB names of the generated enumeration classes
+
 void loadTable(const char* path) {
   std::ifstream in(path);
   if (!in) { std::fprintf(stderr, "cannot open %s\n", path); std::exit(2); }
@@ -97,6 +100,7 @@ void loadTable(const char* path) {
     else if (tag == "F") g_functions[f[1]].push_back({std::stoi(f[2]), parseGuards(f[3]), std::stoi(f[4]), std::stoi(f[5])});
     else if (tag == "G") g_classes[f[1]].getters[f[2]] = {std::stoi(f[3]), f[4] == "1"};
     else if (tag == "T") g_classes[f[1]].setters[f[2]] = std::stoi(f[3]);
+    else if (tag == "E") g_enums.insert(f[1]);
   }
 }
 
@@ -444,6 +448,8 @@ int main(int argc, char** argv) {
   });
   mock::setCallHook([](const std::string& name, int nrhs, mxArray* prhs[]) -> mxArray* {
     std::vector<mxArray*> a(prhs, prhs + nrhs);
+    // <Enumeration>(number): the value of the enumeration (observed as its number); the class must exist
+    if (g_enums.count(name) && nrhs == 1 && mxIsDouble(prhs[0])) return mxCreateDoubleScalar(mxGetScalar(prhs[0]));
     int id = newObject(name, a);
     return mock::makeObject(id);
   });
